@@ -391,7 +391,7 @@ def excl_monitor(prop, m, trace):
 
 _EXCL_RULE = ("exclusive: 2-10 (thorough: up to 27) calls of all styles (Call, CallAfter, CallAsync, Start, StartAfter, CallWithOptions with ExclusiveWork / "
               "ExclusiveStart / ExclusiveWait) on 1-3 keys of one real Exclusive, each from its own goroutine; harness work functions resolve at once, block on a gate before or "
-              "after resolving (the resolve-to-return gap), resolve twice, resolve from three goroutines at once, resolve with an error result and keep running, or return without resolving; every fifth case is `firstrace`: for 350 ms, fresh zero-value instances whose 3-9 first Call / Start calls race behind one gate on 1-2 keys, harness-side overlap counter; every tenth is `waitend`: a CallAfter whose 0.3-1.2 ms wait ends while 3-6 goroutines keep calling Start / Call / StartAfter on its key and another; 16 forced handover schedules (8 of them with a Start as the call that arrives while the runner sits in its clear hook, and nothing else on that key afterwards: a lost Start shows as an 'unanswered' line of the harness-side lost-call monitor); the controller releases gates in a PRNG interleaving and, with several keys, "
+              "after resolving (the resolve-to-return gap), resolve twice, resolve from three goroutines at once, resolve with an error result and keep running, or return without resolving; every fifth case is `firstrace`: for 350 ms, fresh zero-value instances whose 3-9 first Call / Start calls race behind one gate on 1-2 keys, harness-side overlap counter; every tenth is `waitend`: a CallAfter whose 0.3-1.2 ms wait ends while 3-6 goroutines keep calling Start / Call / StartAfter on its key and another; 20 forced schedules (16 handover schedules + 4 stale-fetch schedules: a call fetches the runner's item while the runner holds the key's mutex at its `run` hook, the runner installs its successor and is held again right before invoking its work function, the call must find the item stale without having touched it; 8 of the handover schedules with a Start as the call that arrives while the runner sits in its clear hook, and nothing else on that key afterwards: a lost Start shows as an 'unanswered' line of the harness-side lost-call monitor); the controller releases gates in a PRNG interleaving and, with several keys, "
               "keeps key 0's work blocked until every caller of the other keys has returned (a blocked key is reported as !stuck); the verif hook events (attach with count, "
               "escape, deliver, run, swap, work, resolve, returned, clear with count), attributed to calls through the creating goroutine, plus the functions' own events and the "
               "received outcomes must be accepted step by step by one instance of the Lean transition system per key (item identity, counts, who becomes the runner and when, "
